@@ -48,7 +48,8 @@ pub fn build_source(case: &Value) -> (Vec<u8>, String) {
     e.push((6, XEntry::InUse { off: o, gen: 0 }));
     let o = d.stream(7, 0, "/N 1", b"ICC-PROFILE-BYTES", None, false);
     e.push((7, XEntry::InUse { off: o, gen: 0 }));
-    let o = d.stream(8, 0, "/Type /XObject /Subtype /Form /BBox [0 0 9 9]", b"0 0 9 9 re f", None, false);
+    // stored hex-encoded: the stored bytes and the decoded bytes differ
+    let o = d.stream(8, 0, "/Type /XObject /Subtype /Form /BBox [0 0 9 9] /Filter /ASCIIHexDecode", &hex(b"0 0 9 9 re f"), None, false);
     e.push((8, XEntry::InUse { off: o, gen: 0 }));
     for k in 1..=n {
         let refs: Vec<String> = ids(&edges[k as usize - 1]).iter().map(|r| format!("{} 0 R", 10 + r)).collect();
@@ -60,9 +61,22 @@ pub fn build_source(case: &Value) -> (Vec<u8>, String) {
     (d.buf, content)
 }
 
-fn import(bytes: &[u8]) -> pdf::error::Result<Vec<u8>> {
+fn import(bytes: &[u8], inspect: bool) -> pdf::error::Result<Vec<u8>> {
     let src = FileOptions::cached().load(bytes.to_vec())?;
     let page = src.get_page(0)?;
+    if inspect {
+        // what a viewer does before it copies a page: look at the page's resources, decode their streams
+        let r = src.resolver();
+        if let Ok(res) = page.resources() {
+            for (_, x) in res.xobjects.iter() {
+                if let Ok(xo) = r.get(*x) {
+                    if let pdf::object::XObject::Form(ref f) = *xo { let _ = f.operations(&r); }
+                }
+            }
+            for (_, f) in res.fonts.iter() { let _ = f.load(&r); }
+        }
+        if let Some(c) = page.contents.as_ref() { let _ = c.operations(&r); }
+    }
     let mut builder = PdfBuilder::new(FileOptions::uncached());
     let pb = {
         let mut importer = Importer::new(src.resolver(), &mut builder.storage);
@@ -91,7 +105,8 @@ pub fn run(cases_path: &str, report_path: &str, _opts: &[String]) {
         };
         // the import runs on a thread with a generous stack; a runaway recursion still ends the process (observed by bin/check)
         let b2 = bytes.clone();
-        let out = std::thread::Builder::new().stack_size(64 << 20).spawn(move || guarded(|| import(&b2))).unwrap().join();
+        let inspect = case["inspected"].as_bool().unwrap_or(false);
+        let out = std::thread::Builder::new().stack_size(64 << 20).spawn(move || guarded(|| import(&b2, inspect))).unwrap().join();
         let new = match out {
             Ok(Outcome::Done(Ok(b))) => b,
             Ok(Outcome::Done(Err(e))) => { rep.count("import-returned-err"); if ci < 3 { rep.notes.push(format!("import err: {}", err_json(&e))); } continue; } // an Err is acceptable
@@ -150,7 +165,7 @@ pub fn run(cases_path: &str, report_path: &str, _opts: &[String]) {
                         for u in &used {
                             let ok = match (u.as_str(), &res) {
                                 ("gs", Some(rs)) => rs.graphics_states.get("GS1").map(|g| g.line_width == Some(2.5)).unwrap_or(false),
-                                ("xobject", Some(rs)) => rs.xobjects.get("R1").map(|x| r.resolve(x.get_inner()).ok().and_then(|p| match p { Primitive::Stream(st) => st.raw_data(&r).ok().map(|d| &*d == b"0 0 9 9 re f"), _ => None }).unwrap_or(false)).unwrap_or(false),
+                                ("xobject", Some(rs)) => rs.xobjects.get("R1").map(|x| r.resolve(x.get_inner()).ok().and_then(|p| match p { Primitive::Stream(st) => st.raw_data(&r).ok().map(|d| &*d == &hex(b"0 0 9 9 re f")[..] && pdf::object::Stream::<()>::from_stream(st.clone(), &r).and_then(|s| s.data(&r)).map(|d| &*d == b"0 0 9 9 re f").unwrap_or(false)), _ => None }).unwrap_or(false)).unwrap_or(false),
                                 ("font", Some(rs)) => rs.fonts.get("R1").map(|l| l.load(&r).map(|ft| ft._other.get("Marker") == Some(&Primitive::Integer(case["resobj"]["font"].as_i64().unwrap() as i32))).unwrap_or(false)).unwrap_or(false),
                                 ("colorspace", Some(rs)) => rs.color_spaces.contains_key("CS1"),
                                 _ => false,
